@@ -185,6 +185,7 @@ func init() {
 
 // CheckC04 — v4.0 score equals the MacroVector algorithm.
 func CheckC04(r *Report) {
+	ColdStart(r)
 	if err := spec.V4Init(); err != nil {
 		r.Note("MODEL ERROR: %v", err)
 		r.NotExhaustive("model start-up checks failed; nothing decided")
